@@ -1,0 +1,94 @@
+//go:build verif
+
+// Machine-checked contracts for package multiplex (comment-only; build tag "verif").
+// Read by /verif/bin/nriverif.
+
+package multiplex
+
+// ---------------------------------------------------------------------------
+// Typestate of the multiplexer and of a logical connection
+// ---------------------------------------------------------------------------
+// A connection's doneC is closed only inside closeOnce (so it is closed at most once);
+// the same holds for the multiplexer's doneC.
+//@ pure wfConn(c *conn) = allocated(c) && c.doneC != nil && (chanclosed(c.doneC) <==> done(c.closeOnce))
+//@ pure wfMux(m *mux) = m != nil && m.doneC != nil && m.trunk != nil && m.conns != nil && (chanclosed(m.doneC) ==> done(m.closeOnce))
+//@     && (forall id ConnID :: has(m.conns, id) ==> wfConn(m.conns[id]))
+//@     && (forall a ConnID, b ConnID :: has(m.conns, a) && has(m.conns, b) && m.conns[a] != m.conns[b] ==> m.conns[a].doneC != m.conns[b].doneC)
+
+//@ func mux.setError
+//@   props C11
+//@   requires m != nil
+//@   modifies m.err, lock(m.errOnce)
+//@   ensures [latched] done(m.errOnce) && (old(done(m.errOnce)) ==> m.err == old(m.err)) && (!old(done(m.errOnce)) ==> m.err == err)
+
+//@ func mux.error
+//@   props C11
+//@   requires m != nil && (done(m.errOnce) ==> m.err != nil)
+//@   modifies m.err, lock(m.errOnce)
+//@   ensures [nonnil]  result != nil && result == m.err && done(m.errOnce)
+//@   ensures [latched] old(done(m.errOnce)) ==> m.err == old(m.err)
+
+//@ func conn.close
+//@   props C11
+//@   requires wfConn(c)
+//@   modifies lock(c.closeOnce), chanstate(c.doneC), calls("chan.close")
+//@   ensures [closed] done(c.closeOnce) && chanclosed(c.doneC) && result == nil
+//@   ensures [once]   old(done(c.closeOnce)) ==> ncalls("chan.close") == old(ncalls("chan.close"))
+
+//@ func mux.Close$1
+//@   props C11
+//@   requires wfMux(m) && !held(m.connLock) && !chanclosed(m.doneC)
+//@   modifies lock(m.connLock), alllocks("multiplex.conn:closeOnce"), allchans("chan error"), chanstate(m.doneC), calls("chan.close"), calls("net.Conn.Close")
+//@   ensures [conns]  forall id ConnID :: has(m.conns, id) ==> chanclosed(m.conns[id].doneC) && done(m.conns[id].closeOnce)
+//@   ensures [done]   chanclosed(m.doneC) && !held(m.connLock)
+//@   ensures [trunk]  ncalls("net.Conn.Close") == old(ncalls("net.Conn.Close")) + 1 && callarg("net.Conn.Close", old(ncalls("net.Conn.Close")), 0) == m.trunk
+//@   loop 1 invariant held(m.connLock) && !chanclosed(m.doneC) && m.doneC != nil && m.trunk != nil && ncalls("net.Conn.Close") == old(ncalls("net.Conn.Close"))
+//@   loop 1 invariant forall id ConnID :: has(m.conns, id) ==> wfConn(m.conns[id])
+//@   loop 1 invariant forall a ConnID, b ConnID :: has(m.conns, a) && has(m.conns, b) && m.conns[a] != m.conns[b] ==> m.conns[a].doneC != m.conns[b].doneC
+//@   loop 1 invariant forall id ConnID :: visited(id) && has(m.conns, id) ==> chanclosed(m.conns[id].doneC) && done(m.conns[id].closeOnce)
+
+//@ func mux.Close
+//@   props C11
+//@   requires wfMux(m) && !held(m.connLock)
+//@   modifies lock(m.closeOnce), lock(m.connLock), alllocks("multiplex.conn:closeOnce"), allchans("chan error"), chanstate(m.doneC), calls("chan.close"), calls("net.Conn.Close")
+//@   ensures [closed] done(m.closeOnce) && result == nil && !held(m.connLock)
+//@   ensures [first]  !old(done(m.closeOnce)) ==> chanclosed(m.doneC) && (forall id ConnID :: has(m.conns, id) ==> chanclosed(m.conns[id].doneC))
+//@                    && ncalls("net.Conn.Close") == old(ncalls("net.Conn.Close")) + 1
+//@   ensures [again]  old(done(m.closeOnce)) ==> ncalls("chan.close") == old(ncalls("chan.close")) && ncalls("net.Conn.Close") == old(ncalls("net.Conn.Close"))
+
+//@ func conn.Close
+//@   props C11
+//@   requires wfConn(c) && wfMux(c.mux) && !held(c.mux.connLock)
+//@   modifies lock(c.mux.connLock), mapkey(c.mux.conns, c.id), lock(c.closeOnce), chanstate(c.doneC), calls("chan.close")
+//@   ensures [closed]  done(c.closeOnce) && chanclosed(c.doneC) && result == nil && !held(c.mux.connLock)
+//@   ensures [removed] old(c.mux.conns[c.id]) == c ==> !has(c.mux.conns, c.id)
+//@   ensures [others]  old(c.mux.conns[c.id]) != c ==> has(c.mux.conns, c.id) == old(has(c.mux.conns, c.id)) && c.mux.conns[c.id] == old(c.mux.conns[c.id])
+
+// ---------------------------------------------------------------------------
+// Framing on the write side (mux.write): inductive argument.  The loop invariant says
+// that `data` is always a suffix of buf; the call-site assertions say that every
+// iteration writes one header carrying (id, size) followed by exactly data[:size] with
+// size <= maxPayloadSize, all under one hold of the write lock; the loop ends when the
+// suffix is empty.  Hence the payloads written concatenate to buf, in order, each
+// preceded by its own header.
+// ---------------------------------------------------------------------------
+//@ func mux.write
+//@   props C10 C11
+//@   flag slice-within-len
+//@   requires wfMux(m) && !held(m.writeLock) && !held(m.connLock)
+//@   modifies lock(m.writeLock), m.err, lock(m.errOnce), lock(m.closeOnce), lock(m.connLock), alllocks("multiplex.conn:closeOnce"), allchans("chan error"), chanstate(m.doneC)
+//@   modifies calls("chan.close"), calls("net.Conn.Close"), calls("net.Conn.Write"), calls("(encoding/binary.bigEndian).PutUint32")
+//@   at call net.Conn.Write assert held(m.writeLock) && arg0 == m.trunk
+//@   at call net.Conn.Write#1 assert len(arg1) == 8
+//@   at call net.Conn.Write#2 assert base(arg1) == base(data) && off(arg1) == off(data) && len(arg1) == size && size <= 4194314
+//@   at call (encoding/binary.bigEndian).PutUint32#1 assert arg2 == uint32(id)
+//@   at call (encoding/binary.bigEndian).PutUint32#2 assert arg2 == uint32(size) && 0 <= size && size <= 4194314
+//@   ensures [lock]    !held(m.writeLock) && epoch(m.writeLock) == old(epoch(m.writeLock)) + 1 && !held(m.connLock)
+//@   ensures [ok]      result.1 == nil ==> result.0 == len(buf) && ncalls("net.Conn.Write") >= old(ncalls("net.Conn.Write")) + 2
+//@   ensures [err]     result.1 != nil ==> result.0 == 0
+//@   ensures [stop]    result.1 != nil && callret("net.Conn.Write", ncalls("net.Conn.Write") - 1, 0) != 0 ==> done(m.closeOnce) && done(m.errOnce)
+//@   loop 1 invariant held(m.writeLock) && epoch(m.writeLock) == old(epoch(m.writeLock)) + 1 && !held(m.connLock) && wfMux(m)
+//@   loop 1 invariant base(data) == base(buf) && off(data) >= off(buf) && off(data) + len(data) == off(buf) + len(buf) && cap(data) >= len(data)
+//@   loop 1 invariant 0 <= size && size <= len(data) && (len(data) > 0 ==> size > 0)
+//@   loop 1 invariant ncalls("net.Conn.Write") >= old(ncalls("net.Conn.Write")) && (off(data) > off(buf) ==> ncalls("net.Conn.Write") >= old(ncalls("net.Conn.Write")) + 2)
+//@   loop 1 decreases len(data)
